@@ -210,6 +210,26 @@ def extract_fn(item, opts, blocks, rewrites_log, as_stub=False):
     elif q is not None:
         edits.append((tk(q)[2], tk(q + 1)[2], R('10', text[tk(q)[2]:tk(q + 1)[2]], '')))
 
+    # ---- R8b: a trait default method extracted as a free generic function:
+    #      selfparam="this:&V" generics="<V: ValCheck>"  turns  fn f(&self, ..)  into  fn f<V: ValCheck>(this: &V, ..)  and self := this
+    if opts.get('selfparam') and not as_stub:
+        nm, ty = opts['selfparam'].split(':', 1)
+        q0 = None
+        for qq in range(namep + 1, pe):
+            if tk(qq)[0] == 'id' and tk(qq)[1] == 'self':
+                q0 = qq; break
+        if q0 is None: raise GenErr('%s: selfparam given but no self receiver' % item.name)
+        st = q0
+        while tk(st - 1)[1] in ('&', 'mut') or tk(st - 1)[0] == 'life': st -= 1
+        edits.append((tk(st)[2], tk(q0)[3], R('8', text[tk(st)[2]:tk(q0)[3]], '%s: %s' % (nm, ty))))
+        if opts.get('generics'):
+            pos = tk(namep)[3]
+            edits.append((pos, pos, R('8', '', opts['generics'])))
+        for qq in range(bodyp + 1, bodye):
+            if tk(qq)[0] == 'id' and tk(qq)[1] == 'self':
+                edits.append((tk(qq)[2], tk(qq)[3], R('8', 'self', nm)))
+        rewrites_log.append({'rule': 'R8', 'fn': item.name, 'before': 'self receiver of a trait default method', 'after': opts['selfparam'] + ' ' + opts.get('generics', '')})
+
     # ---- R8: a trait-impl method extracted as a free/inherent function: `Self` becomes the impl's own type
     if opts.get('selfty'):
         for q in range(fnp, bodye):
